@@ -397,6 +397,11 @@ class Machine:
             if op in ('in', '!in'):
                 if len(vals) != len(set(map(ck, vals))): L.add("duplicate-values-in-'in'-list")
                 if not vals: L.add("empty-'in'-list")
+                ints = sorted({v for v in vals if type(v) is int})
+                if len(ints) >= 2 and len(ints) == len({ck(v) for v in vals}) and ints[-1] - ints[0] == len(ints) - 1:
+                    L.add("consecutive-int-'in'-list")
+                    between = any(isinstance(c, float) and ints[0] < c < ints[-1] and c != int(c) for c in colvals)
+                    if between: L.add("consecutive-int-'in'-list-with-value-in-between" + ('-bisect' if bis else '-scan'))
             if op != 'match' and vals and all(not any(m_eq(c, v) for c in colvals) for v in vals): L.add('argument-absent-from-column')
             if op in ORDER and colvals:
                 present = [c for c in colvals if c is not MISS and c is not None]
@@ -542,9 +547,20 @@ def draw_scalar(draw, col, sim, allow_none):
     if allow_none and col not in sim['idx'] and draw(I(0, 7)) == 0: return None
     return draw(S(pool))
 
+NUMCOLS = ('a', 'b', 'd', 'e', 'f', 'r')
+
 def draw_coll(draw, col, sim):
     pool = pool_of(col, sim['n']) + ([None] if col not in sim['idx'] else [])
-    vals = draw(LS(pool, 0, 4))
+    if col in NUMCOLS and draw(I(0, 2)) == 0:
+        # a run of 2-4 consecutive ints around the column's values (floor/ceil of the non-integer values of 'd' such as
+        # 1.5 lie inside such runs), possibly with a duplicate, in any order: an implementation that treats the run as one
+        # range also selects the values strictly between two listed ints
+        lo = draw(I(-1, 2))
+        vals = list(range(lo, lo + draw(I(2, 4))))
+        if draw(B): vals.append(draw(S(vals)))
+        vals = list(draw(st.permutations(vals)))
+    else:
+        vals = draw(LS(pool, 0, 4))
     kind = draw(S(['list', 'list', 'tuple', 'set']))
     if kind == 'set': vals = list({ck(v): v for v in vals}.values())
     return {'coll': kind, 'vals': vals}
@@ -676,13 +692,14 @@ def view_ops(case):
 # ------------------------------------------------------------------------------------------------ grid (exhaustive)
 GA = [0, 1, 2, MISS]
 GB = [0, 1]
-GCELLS = [(a, b) for a in GA for b in GB if not (a == 2 and b == 1)]     # 7 distinct rows
+GCELLS = [(a, b) for a in GA for b in GB if not (a == 2 and b == 1)] + [(1.5, 0)]   # 8 distinct rows, one non-integer value
 GINDEX = [['a'], ['a', 'b'], ['b', 'a'], []]
-GARGS = {'a': [-1, 0, 1, 2, 3], 'b': [-1, 0, 1, 2]}
-GLISTS = {'a': [[], [0], [2], [3], [0, 2], [2, 0], [1, 1], [0, 0, 2], [-1, 1, 3], [0, 1, 2]], 'b': [[], [0], [1, 1], [1, 0], [2]]}
+GARGS = {'a': [-1, 0, 1, 1.5, 2, 3], 'b': [-1, 0, 1, 2]}
+GLISTS = {'a': [[], [0], [2], [3], [0, 2], [2, 0], [1, 1], [0, 0, 2], [-1, 1, 3], [0, 1, 2], [0, 1], [1, 2], [2, 1, 1], [1.5], [1, 1.5]],
+          'b': [[], [0], [1, 1], [1, 0], [2]]}
 
 def grid_cases(tier):
-    maxlen = 3 if tier == 'quick' else 5
+    maxlen = 3 if tier == 'quick' else 5     # 8 cells: 585 tables x 4 index choices (quick), 37449 x 4 (thorough)
     for n in range(0, maxlen + 1):
         for cells in itertools.product(range(len(GCELLS)), repeat=n):
             for ix in range(len(GINDEX)):
@@ -792,7 +809,7 @@ SUBCHECKS = [
              "(order, multiplicity, union over keywords), same query on an un-indexed table with the same rows, groupby == partition by index prefix"),
     Sub(name="grid", run=run_grid, enumerate=grid_cases, nontrivial=nontrivial_grid, classes=classes_grid, exhaustive=True,
         quick_shards=2, quick_budget_s=50, thorough_budget_s=800,
-        what="every table of <= 3 (thorough 5) rows over a in {0,1,2,Missing} x b in {0,1}, every index choice, every operator x every "
+        what="every table of <= 3 (thorough 5) rows over 8 cells a in {0,1,1.5,2,Missing} x b in {0,1}, every index choice, every operator x every "
              "argument in and around the range, 'in'/'!in' lists with duplicates/absent/unsorted values, three multi-keyword queries, groupby"),
     Sub(name="views", run=run_views, enumerate=view_cases, nontrivial=lambda c: True, classes=classes_views, exhaustive=True,
         quick_shards=1, quick_budget_s=50, thorough_budget_s=300,
